@@ -447,6 +447,31 @@ class ComponentSim(SmartGridWorldSimulation):
                     self.move_actor.process_action(agent, action, **kwargs)
 
 
+_ORDERED_META = {}
+
+
+def _ordered(names, kind, k):
+    """the registered component classes `names`, as same-named subclasses whose hashes are 0, 1, 2 ... in the
+    k-th permutation of the sorted names: SmartGridWorldSimulation iterates over the SET it is given to construct
+    the components, and a set of few small-int hashes iterates in ascending hash order - so the recipe, not the
+    string hash of the process, decides which component is constructed first (an observer that writes a converted
+    view range back to the shared agent is seen by the components built after it)"""
+    import itertools
+    from abmarl.sim.gridworld.registry import registry
+    names = sorted(set(names))
+    perms = list(itertools.permutations(range(len(names))))
+    perm = perms[k % len(perms)]
+    out = set()
+    for pos, nm in zip(perm, names):
+        base = registry[kind][nm]
+        mt = type(base)
+        if mt not in _ORDERED_META:
+            _ORDERED_META[mt] = type("OrderedMeta", (mt,), {"__hash__": lambda cls: cls._verif_hash})
+        out.add(_ORDERED_META[mt](base.__name__, (base,), {"_verif_hash": pos, "__module__": base.__module__}))
+    assert [c._verif_hash for c in out] == sorted(c._verif_hash for c in out)
+    return out
+
+
 def build_comp(r):
     """recipe -> real simulation (raises on an infeasible configuration)"""
     agents = {}
@@ -468,6 +493,11 @@ def build_comp(r):
         kw["no_overlap_at_reset"] = True
     if r.get("randomize"):
         kw["randomize_placement_order"] = True
+    if r.get("build_perm") is not None:
+        k = int(r["build_perm"])
+        kw["states"] = _ordered(kw["states"], "state", k)
+        kw["observers"] = _ordered(kw["observers"], "observer", k // 24)
+        kw["dones"] = _ordered(kw["dones"], "done", k // 3)
     if not kw["observers"]:
         del kw["observers"]
     return ComponentSim.build_sim(int(r["rows"]), int(r["cols"]), **kw)
